@@ -13,6 +13,7 @@ CONTRACT_MODULES = [
     "contracts.pdu_integrity",
     "contracts.burst",
     "contracts.tx",
+    "contracts.purity",
 ]
 
 TRUSTED_BASE = [
@@ -79,5 +80,11 @@ PROPS = {
         level_note="Quick tier: the block-boundary neighbourhoods of the first three blocks for each of the 6 rate/mode configurations with symbolic contents, plus three long payloads per configuration (up to 1500 octets / 127 blocks) with LITERAL payload bytes (only colour code and addresses symbolic) - the block arithmetic is what varies there. Thorough: every length up to three blocks symbolic, every 7th length to 1500 literal. Lengths whose block count exceeds the header's 7-bit field are outside the precondition. BPTC decoder inside the receiver: through its contract (codeword the encoder produced -> message; anything else -> some 96 bits, over-approximation); trellis decoder loop and CRC bit-serial tail through their contracts.",
         explanation="contract Transmission.generated_is_received",
         bounded_parts=[dict(what="payload contents of the long (>3 blocks) transmissions", bound="one literal byte pattern per length", contract="Transmission.generated_is_received[symbolic=False]")],
+    ),
+    "C19": dict(
+        level_text="Proof part: every codec contract tagged C19 (CRC engines and front ends, block codes, BPTC / VBPTC, trellis, RS, all PDUs and elements, burst) carries frame clauses (argument buffers element-wise unchanged after every path), runs with the shared CRC register singletons HAVOCKED to arbitrary symbolic contents (results are proved equal to a spec that cannot mention them = non-interference), and a tripwire clause: no wall-clock or randomness source is consulted on any path. Bounded part: seeded random histories over 50 public entry points, later inputs partly derived from earlier inputs/outputs, every call re-asked from a pristine (forked, never-used) interpreter state.",
+        level_note="The history check is a bounded stand-in for 'all interleavings' (24 histories of 40/120 calls per quick run; never counted as proved). Mutable default arguments and class-level caches are covered only through it. The in-place Hamming repair is exercised on private copies (documented exception). Hytera / Motorola entry points: see C12 / C14-C16 contracts (frame clauses there).",
+        explanation="frame / havoc / tripwire clauses of all contracts tagged C19 + purity.history",
+        bounded_parts=[dict(what="call histories", bound="24 seeded histories x 40..120 calls per quick run (thorough: up to 400 calls), 50 entry points", contract="purity.history")],
     ),
 }
